@@ -351,8 +351,8 @@ fn need<'a>(st: &'a SourceTables, n: &str) -> Result<&'a Val, String> {
 
 pub fn bind(parser_src: &str) -> Result<Bound, String> {
     let a = Arena::default();
-    let mut st = read_source(parser_src)?;
-    let body = st.scanner_body.take().ok_or("no scanner! macro in generated source")?;
+    let st = read_source(parser_src)?;
+    let body = st.scanner_body.clone().ok_or("no scanner! macro in generated source")?;
     let scanner = build_scanner(&a, body)?;
     let tnames: Vec<&'static str> =
         need(&st, "TERMINAL_NAMES")?.arr().iter().map(|v| a.str(v.str())).collect();
